@@ -23,7 +23,12 @@ PLAN = {
                                    if "returning client" not in f[1] and ("live entities with the same uuid" in f[1] or "synchronized entities" in f[1])]),
                 slices=["ent"], slice_families=("ent",), ref="§7 C01"),
     "C15": dict(families=[("conn", 40, 400)], oracle=lambda h: T.oracle_conn(h), slices=["conn"], ref="§7 C15"),
-    "C05": dict(families=[("parent", 36, 400)], oracle=lambda h: T.oracle_parents(h), slices=["parent"], ref="§7 C05"),
+    # join histories: hierarchies delivered through the joining snapshot while links keep being set (the parent-link part of
+    # the join oracle, newcomers and established clients; what a returning client keeps is C03's subject)
+    "C05": dict(families=[("parent", 36, 400), ("join", 18, 120)],
+                oracle=lambda h: (T.oracle_parents(h) if h.family == "parent" else
+                                  [("C05",) + f[1:] for f in T.oracle_join(h) if "returning client" not in f[1] and "parent link" in f[1]]),
+                slices=["parent"], slice_families=("parent",), ref="§7 C05"),
     "C04": dict(families=[("filter", 30, 300)], oracle=lambda h: T.filter_checks(h)[1], slices=["filter"], ref="§7 C04"),
     "C17": dict(families=[("fix", 30, 300)],
                 oracle=lambda h: T.fix_cases(h, False)[1] + [("C17",) + f[1:] for f in T.oracle_components(h) if f[0] == "C02"],
@@ -152,7 +157,7 @@ def check(prop_id, tier, seed, replay=None):
                 inst_of[l.split(" ")[1]] = (h, {})
                 lines.append(l)
         if "promo" in plan["slices"]:
-            for l in T.promo_lines(h):
+            for l in T.promo_lines(h) + T.chain_lines(h):
                 inst_of[l.split(" ")[1]] = (h, {})
                 lines.append(l)
         if "snapj" in plan["slices"]:
